@@ -38,8 +38,11 @@ def tree_source(rng, uid):
     for i in range(nreg): lines.append(f'    s.r{i} = Wire( Bits8 )')
     for j, kn in enumerate(kids): lines.append(f'    s.k{j} = {kn}()')
     if nreg:
+      # some registers are written through a helper function called from the update_ff block
+      via = [i for i in range(nreg) if rng.random() < 0.3]
+      for i in via: lines += ['    @s.func', f'    def bump{i}():', f'      s.r{i} <<= s.r{i} + {i + 1}']
       lines += ['    @update_ff', '    def ff():']
-      for i in range(nreg): lines.append(f'      s.r{i} <<= s.r{i} + {i + 1}')
+      for i in range(nreg): lines.append(f'      bump{i}()' if i in via else f'      s.r{i} <<= s.r{i} + {i + 1}')
     srcs = [f's.r{i}' for i in range(nreg)] + [f's.k{j}.o' for j in range(len(kids))]
     lines += ['    @update', '    def comb():', '      s.o @= ' + (' ^ '.join(srcs) if srcs else '0')]
     classes.append('\n'.join(lines))
